@@ -761,6 +761,8 @@ impl Check for C15 {
     }
 
     fn run(&self, ctx: &Ctx, rep: &mut Reporter) {
+        // recorded first so that a capped run still carries a sample
+        rep.sample(|| json!({"variant": "plain", "rows": [[2, "a"], [null, "b"], [1, null]], "base": "plain", "keys": [["a", false], ["ord_c", true]], "limit": 2, "offset": 1, "sql": "SELECT a, c FROM t WHERE (1 = 1) ORDER BY a ASC, 2 DESC LIMIT 2 OFFSET 1"}));
         let kmax = ctx.opt("kmax").and_then(|s| s.parse().ok()).unwrap_or(ctx.tier.pick(4usize, 6usize));
         let kfull = ctx.opt("kfull").and_then(|s| s.parse().ok()).unwrap_or(ctx.tier.pick(2usize, 4usize));
         let only_base = ctx.opt("base").map(|s| s.to_string());
@@ -815,7 +817,6 @@ impl Check for C15 {
                 return;
             }
         }
-        rep.sample(|| json!({"variant": "plain", "rows": [[2, "a"], [null, "b"], [1, null]], "base": "plain", "keys": [["a", false], ["ord_c", true]], "limit": 2, "offset": 1, "sql": "SELECT a, c FROM t WHERE (1 = 1) ORDER BY a ASC, 2 DESC LIMIT 2 OFFSET 1"}));
     }
 
     fn replay(&self, ctx: &Ctx, case: &Value, rep: &mut Reporter) {
